@@ -541,7 +541,11 @@ func runC10(st *ev.Stats, c C10Case) string {
 				debit = new(big.Int).Sub(before.UserTok[op.A], after.UserTok[op.A])
 				credit = new(big.Int).Sub(after.UserCoin[op.B], before.UserCoin[op.B])
 			}
-			if debit.Cmp(amt) != 0 || credit.Cmp(amt) != 0 {
+			// what the chain controls is exact for every token; how much an adversarial token takes from its own holder
+			// when the holder hands tokens in is the token's business (never less than what was escrowed)
+			honestTok := op.Pair == 0 || op.Pair == 1 || op.Pair == 5
+			debitOK := debit.Cmp(amt) == 0 || (!honestTok && op.K == "convert-erc20" && debit.Cmp(amt) > 0)
+			if !debitOK || credit.Cmp(amt) != 0 {
 				return fail("conversion-amount:"+op.K+":"+name, fmt.Sprintf("op %d %+v: debited %s, credited %s, requested %s", i, op, debit, credit, amt))
 			}
 		}
